@@ -58,6 +58,9 @@ pub fn gen(ctx: &Ctx, rng: &mut Rng, out: &mut Vec<String>) {
     };
     shp.sort(); shp.dedup();
     shp.sort_by_key(|s| (s.iter().product::<usize>(), s.len()));
+    // one 5-axis shape of unequal lengths gets every ordered axis list (the sort + shift logic only shows at >= 4 named axes)
+    let full5 = vec![2usize, 1, 3, 2, 2];
+    shp.push(full5.clone());
     for s in &shp {
         let d = s.len();
         let n: usize = s.iter().product();
@@ -66,7 +69,7 @@ pub fn gen(ctx: &Ctx, rng: &mut Rng, out: &mut Vec<String>) {
         // all subsets (incl. the full set = TooManyAxes) in all orders
         for mask in 1u32..(1 << d) {
             let subset: Vec<usize> = (0..d).filter(|i| mask >> i & 1 == 1).collect();
-            let perms = if subset.len() <= 3 || ctx.tier_thorough { permutations(&subset) } else {
+            let perms = if subset.len() <= 3 || ctx.tier_thorough || *s == full5 { permutations(&subset) } else {
                 let mut p = vec![subset.clone()];
                 for _ in 0..4 { let mut q = subset.clone(); rng.shuffle(&mut q); p.push(q); }
                 p
